@@ -117,15 +117,19 @@ theorem foldl_adds_spec (es : List (Nat × Nat × Nat)) : ∀ L : LTS,
     simp only [adds, List.map_cons, List.foldl_cons] at this ⊢
     rw [this]; simp [specStep]
 
-/-! ### `buildDelta1` -/
+/-- additions are the same calls on the class before and after the repair -/
+theorem foldl_adds_old (es : List (Nat × Nat × Nat)) : ∀ c : LtsC, (adds es).foldl stepOld c = (adds es).foldl step c := by
+  induction es with
+  | nil => intro c; rfl
+  | cons e es ih => intro c; exact ih (step c (.add e.1 e.2.1 e.2.2))
 
-theorem count_of_not_mem (s : SSet) (k : Nat) (h : k ∉ s.keys) : s.count k = 0 := by
-  unfold SSet.count
-  have : s.elems.find? (fun e => e.1 == k) = none := by
-    rw [List.find?_eq_none]
-    intro e he hk
-    exact h (List.mem_map.2 ⟨e, he, by simpa using hk⟩)
-  rw [this]
+/-- on an object without an index (`bwLabels_` empty: fresh or cleared) `resize` and `assign` build the same vector: the
+repair changes nothing there -/
+theorem initOld_eq_init (c : LtsC) (h : c.bw = []) : initOld c = init c := by
+  unfold initOld init resizeL
+  rw [h]; simp
+
+/-! ### `buildDelta1` -/
 
 /-- the loop of `buildDelta1` for one label after `j` rounds, on the fresh set -/
 theorem delta1_fold (st : Nat) (fst : List (List Nat)) (j : Nat) (hj : j ≤ st) :
